@@ -86,13 +86,16 @@ def correspondence(ctx):
         "locations, overlapping, missing, none), algorithm lists (subsets/orders of sha256/384/512, duplicates, empty, unknown "
         "names), exclude patterns, strip prefixes, both switches; InTotoRun with a helper command that writes/deletes files, "
         "InTotoRecordStart/Stop around the same operations, InTotoMatchProducts against disturbed product maps. "
-        "file and directory names with bytes a normaliser might touch (backslashes incl. d\\f next to d/f and a\\b\\c next to a/b/c and "
+        "trees of names that tools like to ignore (.git/, *.pyc, *~, .DS_Store, node_modules/, *.swp, .svn/, CVS/ ...) recorded with no or "
+        "unrelated exclude patterns; exclude patterns against links (file link to an excluded target, directly and through a "
+        "chain, excluded link name with a target that is not, both, directory link to an excluded directory; patterns keys/, "
+        "*.key, id.*) - the oracle decides exclusion on the walked location, i.e. also on the resolved target of a link; file and directory names with bytes a normaliser might touch (backslashes incl. d\\f next to d/f and a\\b\\c next to a/b/c and "
         "a\\b/c, a name that is just a backslash, trailing dot or space, colon, upper/lower-case twins, NFC/NFD twins), each run "
         "five times to expose dependence on map order; histories in one process (two RecordArtifacts calls, InTotoRun, InTotoRecordStart/Stop, RecordArtifacts then "
         "InTotoMatchProducts) between whose snapshots files are rewritten in place with other bytes of the same length and an "
         "unchanged modification time (old time restored, or one fixed time before and after). "
         "non-trivial = the implementation's result is not an empty record; distinct = distinct input JSON. "
-        "The oracle abstains where the property text leaves the exclusion reading open (%d cases)." % abst)
+        "The oracle abstains only where the exclusion readings differ for an uncleanly spelled path argument (%d cases)." % abst)
     return corr
 
 
